@@ -522,9 +522,9 @@ pub fn check(args: &Args) -> i32 {
         "coverage": {
             "evaluations": execs,
             "distinct_nontrivial": nontrivial_distinct,
-            "rule": "one evaluation = one simulated run (a fault-free twin or a faulted run) of one workload family; a run is non-trivial when gimli yielded >=1 item AND (>=1 injected fault fired OR >=1 iterator was driven to its end marker); distinct = distinct FNV-1a digests of the full canonical event stream among non-trivial runs, counted by the machinery",
+            "rule": spec.rule,
             "samples": samples,
-            "exhaustive": false,
+            "exhaustive": spec.exhaustive,
             "run_indices": totals["indices"],
             "sim_steps_reader_ops": totals["ops"],
             "events": totals["events"],
